@@ -155,7 +155,7 @@ static inline struct vec_frames vec_frames_move(struct vec_frames *o)
 /* =========================================================== std::vector<T> for class / smart-pointer elements */
 #define DEFINE_VEC_MODEL(TAG, T)                                                                            \
 void TAG##_push_back(struct TAG *v, T x)                                                                    \
-__CPROVER_requires(__CPROVER_rw_ok(v, sizeof(*v)) && v->n < VEC_MAX && __CPROVER_r_ok(v->d, v->n * sizeof(T)))  \
+__CPROVER_requires(__CPROVER_rw_ok(v, sizeof(*v)) && v->n < VEC_MAX)                                        \
 __CPROVER_ensures(v->n == __CPROVER_old(v->n) + 1)                                                          \
 __CPROVER_ensures(__CPROVER_is_fresh(v->d, v->n * sizeof(T)))                                               \
 __CPROVER_assigns(v->d, v->n)                                                                               \
@@ -193,13 +193,15 @@ void ASAM_CMP_Decoder_SegmentedPacket_ctor__void(struct ASAM_CMP_Decoder_Segment
 
 static inline struct ASAM_CMP_Decoder_SegmentedPacket *map_slot_index(struct map_slot *m, struct ASAM_CMP_Decoder_Endpoint k)
 {
-    __CPROVER_assert(k.deviceId == m->key.deviceId && k.streamId == m->key.streamId, "map key is the endpoint of the current frame");
+    __CPROVER_assert(k.deviceId == m->key.deviceId && k.streamId == m->key.streamId, "[[C18:map_key_is_frame_endpoint]] map key is the endpoint of the current frame");
+    g_map_ops += 1;
     if (!m->present) { ASAM_CMP_Decoder_SegmentedPacket_ctor__void(&m->value); m->present = 1; }
     return &m->value;
 }
 static inline void map_slot_erase(struct map_slot *m, struct ASAM_CMP_Decoder_Endpoint k)
 {
-    __CPROVER_assert(k.deviceId == m->key.deviceId && k.streamId == m->key.streamId, "map key is the endpoint of the current frame");
+    __CPROVER_assert(k.deviceId == m->key.deviceId && k.streamId == m->key.streamId, "[[C18:map_key_is_frame_endpoint]] map key is the endpoint of the current frame");
+    g_map_ops += 1;
     m->present = 0;
 }
 #endif
